@@ -162,26 +162,25 @@ UdpFailing(h, strictAddr) ==
       \* replies with payload v owed to client k / received by client k
       Owed(k, v) == Count(h.treply, LAMBDA e : Pay(e) = v /\ Owner(h, e.to) = {k})
       Got(k, v)  == Cardinality({i \in okRecv : h.crecv[i].k = k /\ Recovered(h, h.crecv[i]) = v})
-      Unowned(v) == Count(h.treply, LAMBDA e : Pay(e) = v /\ Owner(h, e.to) # {h.sent[1].k} /\ Cardinality(Owner(h, e.to)) # 1)
+      Unowned(v) == Count(h.treply, LAMBDA e : Pay(e) = v /\ Cardinality(Owner(h, e.to)) # 1)
       GotAll(v)  == Cardinality({i \in okRecv : Recovered(h, h.crecv[i]) = v})
       OwedAll(v) == Count(h.treply, LAMBDA e : Pay(e) = v)
-  IN  (IF \E v \in trecvPays : v \notin sentPays THEN {"udp_datagram_modified"} ELSE {})
- \cup (IF \E v \in sentPays : NTrecv(v) > NSent(v) THEN {"udp_datagram_duplicated"} ELSE {})
- \cup (IF \E v \in sentPays : NTrecv(v) < NSent(v) THEN {"udp_datagram_lost"} ELSE {})
- \cup (IF \E i \in Idx(h.crecv) : ~HeaderOK(h, h.crecv[i]) THEN {"socks5_udp_header"} ELSE {})
- \cup (IF strictAddr /\ h.mode = "socks5" /\ \E i \in okRecv : ~HeaderNamesTarget(h, h.crecv[i])
-       THEN {"socks5_udp_header_addr"} ELSE {})
- \cup (IF \E i \in okRecv : Recovered(h, h.crecv[i]) \notin replyPays THEN {"udp_reply_modified"} ELSE {})
-      \* a reply owed to client k (and to nobody else) shows up at another client
- \cup (IF \E i \in okRecv : \E m \in Idx(h.treply) :
-            /\ Recovered(h, h.crecv[i]) = Pay(h.treply[m])
-            /\ Cardinality(Owner(h, h.treply[m].to)) = 1
-            /\ h.crecv[i].k \notin Owner(h, h.treply[m].to)
-            /\ Got(h.crecv[i].k, Pay(h.treply[m])) > Owed(h.crecv[i].k, Pay(h.treply[m]))
-       THEN {"udp_reply_wrong_client"} ELSE {})
- \cup (IF \E k \in Clients(h) : \E v \in replyPays : Got(k, v) < Owed(k, v) THEN {"udp_reply_lost"} ELSE {})
- \cup (IF \E v \in replyPays : GotAll(v) > OwedAll(v) THEN {"udp_reply_duplicated"} ELSE {})
- \cup (IF \E v \in replyPays : GotAll(v) < OwedAll(v) THEN {"udp_reply_lost"} ELSE {})
- \cup (IF \E i \in Idx(h.crecv) : h.crecv[i].from \notin Dest(h, h.crecv[i].k) THEN {"udp_reply_wrong_source"} ELSE {})
- \cup (IF Len(h.timeouts) > 0 /\ Len(h.sent) = Len(h.trecv) /\ Len(h.treply) = Len(h.crecv) THEN {"udp_timeout"} ELSE {})
+      base ==
+          (IF \E v \in trecvPays : v \notin sentPays THEN {"udp_datagram_modified"} ELSE {})
+     \cup (IF \E v \in sentPays : NTrecv(v) > NSent(v) THEN {"udp_datagram_duplicated"} ELSE {})
+     \cup (IF \E v \in sentPays : NTrecv(v) < NSent(v) THEN {"udp_datagram_lost"} ELSE {})
+     \cup (IF \E i \in Idx(h.crecv) : ~HeaderOK(h, h.crecv[i]) THEN {"socks5_udp_header"} ELSE {})
+     \cup (IF strictAddr /\ h.mode = "socks5" /\ \E i \in okRecv : ~HeaderNamesTarget(h, h.crecv[i])
+           THEN {"socks5_udp_header_addr"} ELSE {})
+     \cup (IF \E i \in okRecv : Recovered(h, h.crecv[i]) \notin replyPays THEN {"udp_reply_modified"} ELSE {})
+          \* a client holds more copies of a reply payload than the replies owed to it plus those that cannot be
+          \* attributed to any one client: a reply owed to somebody else arrived here
+     \cup (IF \E k \in Clients(h) : \E v \in replyPays : Got(k, v) > Owed(k, v) + Unowned(v)
+           THEN {"udp_reply_wrong_client"} ELSE {})
+     \cup (IF \E k \in Clients(h) : \E v \in replyPays : Got(k, v) < Owed(k, v) THEN {"udp_reply_lost"} ELSE {})
+     \cup (IF \E v \in replyPays : GotAll(v) > OwedAll(v) THEN {"udp_reply_duplicated"} ELSE {})
+     \cup (IF \E v \in replyPays : GotAll(v) < OwedAll(v) THEN {"udp_reply_lost"} ELSE {})
+     \cup (IF \E i \in Idx(h.crecv) : h.crecv[i].from \notin Dest(h, h.crecv[i].k) THEN {"udp_reply_wrong_source"} ELSE {})
+  IN  \* a client gave up waiting although nothing above explains it
+      IF base = {} /\ Len(h.timeouts) > 0 THEN {"udp_timeout"} ELSE base
 =============================================================================
